@@ -342,7 +342,12 @@ class NumInterp(Interp):
                     sub.depth = getattr(self, 'depth', 0) + 1
                     return sub.call(fnode)
             if callable(f):
-                args = [self.ev(a) for a in n.args]
+                args = []
+                for a in n.args:
+                    if isinstance(a, ast.Starred):
+                        args.extend(list(self.ev(a.value)))
+                    else:
+                        args.append(self.ev(a))
                 kw = {k.arg: self.ev(k.value) for k in n.keywords if k.arg and k.arg != 'dtype'}
                 return f(*args, **kw)
         if isinstance(n, ast.Subscript):
@@ -362,7 +367,7 @@ class NumInterp(Interp):
             v = self.ev(n.value)
             if isinstance(v, dict) and n.attr in v:
                 return v[n.attr]
-            if isinstance(v, self.np.ndarray) and n.attr in ('T', 'shape', 'real', 'imag'):
+            if isinstance(v, self.np.ndarray) and n.attr in ('T', 'shape', 'real', 'imag', 'dot', 'reshape', 'conj', 'copy', 'astype', 'tolist', 'flatten'):
                 return getattr(v, n.attr)
             if isinstance(v, (int, float, complex)) and n.attr in ('real', 'imag'):
                 return getattr(complex(v), n.attr)
